@@ -27,7 +27,12 @@ fn key_of(op: &OpRec) -> Option<(u8, String)> {
 }
 
 /// returns the ids of acquireLock requests that may legitimately still be waiting
-pub fn check(ck: &mut Checker<'_>, rp: &Replay, alive: &BTreeSet<usize>) -> BTreeSet<usize> {
+pub fn check(
+    ck: &mut Checker<'_>,
+    rp: &Replay,
+    alive: &BTreeSet<usize>,
+    lock_probe: &BTreeMap<String, bool>,
+) -> BTreeSet<usize> {
     let ops: Vec<OpRec> = ck.p.ops.clone();
     let mut pending_ok = BTreeSet::new();
     let mut keys: BTreeSet<String> = BTreeSet::new();
@@ -230,6 +235,41 @@ pub fn check(ck: &mut Checker<'_>, rp: &Replay, alive: &BTreeSet<usize>) -> BTre
                     ),
                 );
             }
+        }
+        // a lock does not outlive the sessions that asked for it: if the server still has the key
+        // locked at the end, some client that is still connected must be a possible holder
+        if lock_probe.get(&key) == Some(&true) {
+            // (connected as far as the history shows: neither side closed the session)
+            let connected = |c: &usize| -> bool {
+                alive.contains(c)
+                    || ck
+                        .p
+                        .clients
+                        .get(c)
+                        .map(|ci| ci.closed_seen.is_none() && ci.closed_by_client.is_none() && ci.client_id.is_some())
+                        .unwrap_or(false)
+            };
+            let live_candidates = possible_holders_at_end.iter().any(|c| connected(c))
+                || waiting_at_end.iter().any(|o| connected(&o.client))
+                || clients.iter().any(|c| connected(c) && {
+                    // a live client with an unanswered lock request may hold it as well
+                    ops.iter().any(|o| o.client == *c && matches!(key_of(o), Some((0 | 1, k)) if k == key) && o.ans.is_none())
+                });
+            if !live_candidates {
+                let who: Vec<usize> = clients.iter().cloned().collect();
+                for prop in ["C06", "C07"] {
+                    ck.out.violate(
+                        prop,
+                        "lock-survives-session",
+                        "a key is still locked although every session that asked for its lock has ended or released it",
+                        format!("key {key}: clients that asked: {who:?}, none of them still connected"),
+                    );
+                }
+            } else {
+                ck.out.probe("lock_still_held_by_live_client_at_end");
+            }
+        } else if lock_probe.get(&key) == Some(&false) {
+            ck.out.probe("lock_free_at_end");
         }
         // nobody left waiting on a free key
         for o in waiting_at_end {
